@@ -70,7 +70,10 @@ def variant(draw, shape, default):
                            gen.trees(big, default, leaf=st.just(default), max_elems=3)))
     return {"noise": noise, "shape": big,
             "route": draw(st.sampled_from(["ref", "fiber", "uncompressed", "yaml", "deepcopy"])),
-            "as": draw(st.sampled_from(["tensor", "root", "unowned"]))}
+            "as": draw(st.sampled_from(["tensor", "root", "unowned"])),
+            # the last top-level element is attached by hand (Fiber.append of a value / an unowned
+            # sub-fiber) instead of through the tensor: counting and equality must follow the tree
+            "hand": draw(st.sampled_from([False, False, True]))}
 
 
 @st.composite
@@ -99,7 +102,14 @@ def realise(base, v, cont):
     spec = {"rank_ids": base["rank_ids"], "shape": v["shape"], "default": base["default"], "tree": tree}
     if v["as"] == "unowned":
         return spec, build.build_fiber(spec), None
-    t = build.build_tensor(spec, v["route"])
+    if v.get("hand") and tree:
+        # build without the last top-level element, then append it by hand
+        (c_last, ch_last) = tree[-1]
+        t = build.build_tensor(dict(spec, tree=tree[:-1]), v["route"])
+        sub = ch_last if d == 1 else build.nested_fiber(ch_last, d - 1, v["shape"][1:], base["default"])
+        t.getRoot().append(c_last, sub)
+    else:
+        t = build.build_tensor(spec, v["route"])
     return spec, (t if v["as"] == "tensor" else t.getRoot()), t
 
 
